@@ -142,7 +142,7 @@ class NETWriter(object):
         """
         cpt = self.tables[var_name]
         cpt_array = np.moveaxis(compat_fns.to_numpy(cpt, decimals=4), 0, -1)
-        cpt_string = str(cpt_array)
+        cpt_string = np.array2string(cpt_array, threshold=cpt_array.size + 1)
         net_cpt_string = (
             cpt_string.replace("[", "(")
             .replace("]", ")")
